@@ -45,7 +45,7 @@ func init() {
 			}
 			return []runner.Phase{
 				{Name: "direct", Variant: "race", Cases: n, Run: c16direct, CaseTimeout: 180 * time.Second,
-					Required: []string{"steps", "step_add", "step_remove", "step_readdress", "step_replace_id", "step_invalid_rows", "step_duplicate_row", "step_down", "step_up", "step_refresh_failure", "step_control_loss", "step_flap", "step_event_for_removed", "step_peer_address_change", "step_join_during_control_outage", "step_filter_rejects_known_node", "step_join_announced_by_up_only", "sessions_with_host_filter", "consistency_checks"}},
+					Required: []string{"steps", "step_add", "step_remove", "step_readdress", "step_replace_id", "step_invalid_rows", "step_duplicate_row", "step_down", "step_up", "step_refresh_failure", "step_control_loss", "step_flap", "step_event_for_removed", "step_peer_address_change", "step_join_during_control_outage", "step_filter_rejects_known_node", "step_join_announced_by_up_only", "step_removed_event_for_live_address", "step_join_listed_after_duplicate", "sessions_with_host_filter", "consistency_checks"}},
 				{Name: "realtime", Variant: "race", Cases: rt, Shards: 8, Run: c16realtime, CaseTimeout: 180 * time.Second, Required: []string{"event_bursts", "refresh_overlaps"}},
 			}
 		},
@@ -398,7 +398,7 @@ func c16direct(c *runner.Ctx, i int) {
 	for s := 0; s < nsteps; s++ {
 		nodes := cl.Snapshot()
 		others := nodes[1:]
-		step := r.Intn(19)
+		step := r.Intn(20)
 		desc := ""
 		m.mu.Lock()
 		if step != 5 {
@@ -504,6 +504,17 @@ func c16direct(c *runner.Ctx, i int) {
 			m.dup = dn
 			m.mu.Unlock()
 			desc = "duplicate row for " + dn.IP.String()
+			if len(nodes) < 7 && r.Intn(2) == 0 {
+				// ... while another node joins, listed after the duplicated row
+				ip := net.IPv4(10, 0, 7, byte(m.nextIP)).To4()
+				m.nextIP++
+				nn := cl.AddNode(ip, fmt.Sprintf("dc%d", r.Intn(2)), fmt.Sprintf("r%d", r.Intn(3)), []string{fmt.Sprint(int64(m.nextIP) * 1000039)})
+				nn.HostID = c16id(m.nextID)
+				m.nextID++
+				desc += ", and " + ip.String() + " joins (listed after it)"
+				changed = true
+				c.Add("step_join_listed_after_duplicate", 1)
+			}
 			c.Add("step_duplicate_row", 1)
 			err := refresh()
 			if err != nil {
@@ -656,6 +667,16 @@ func c16direct(c *runner.Ctx, i int) {
 				}
 				time.Sleep(10 * time.Millisecond)
 			}
+		case step == 19 && len(others) > 0:
+			n := others[r.Intn(len(others))]
+			if m.down[n] || m.isDenied(n) {
+				continue
+			}
+			// a late REMOVED_NODE for an address that a live node uses (the node that had the address before was
+			// decommissioned; the event was held up): the cluster still reports the live node, so it stays
+			desc = "REMOVED_NODE event for the address of live node " + n.IP.String()
+			c.Add("step_removed_event_for_live_address", 1)
+			gocql.VerifHandleNodeEvents(sess, []gocql.VerifNodeEvent{{Topology: true, Change: "REMOVED_NODE", Host: peerAddr(n), Port: 9042}})
 		case step == 15 && len(others) > 0 && m.denied != nil:
 			n := others[r.Intn(len(others))]
 			if m.down[n] || m.isDenied(n) {
